@@ -77,15 +77,22 @@ def run(idx: Index, rep: Report, tier: str) -> None:
         rep.check(ok, rule1, f"a failed filter (`{norm(t.ast)[:50]}`) ends the translation", f.loc(t.ast), construct=norm(body[0]) if body else "", detail="" if ok else "a constraint that is no precedence is skipped (continue) instead of making the network non-qualitative", function=f.qualname)
 
     rule2 = "C34.2 neither-order-unless-all-precedences"
-    q = [a for a in walk_no_nested(f.node) if isinstance(a, ast.Assign) and norm(a.targets[0]) == "qualitative"]
-    ok = bool(q) and norm(q[0].value) == "len(precedences) == len(time_constraints)"
-    rep.check(ok, rule2, "qualitative iff every temporal constraint became a precedence", f.loc(q[0]) if q else f.loc(), construct=norm(q[0]) if q else "", function=f.qualname)
+    from ..rules2 import path_facts
+
+    QUAL = "len(precedences) == len(time_constraints)"
+    # the verdict may be kept in a local (`qualitative = …; if not qualitative:`) or tested directly: the canonical
+    # tree inlines a temporary that is read once, so the fact is looked for under both spellings
+    q = [a for a in walk_no_nested(f.node) if isinstance(a, ast.Assign) and norm(a.value) == QUAL]
+    qnames = {norm(a.targets[0]) for a in q}
+    tests = [n for n in cfg.nodes if n.kind == "test" and QUAL in norm(n.ast).replace("!=", "==")]
+    ok = bool(q) or bool(tests)
+    rep.check(ok, rule2, "qualitative iff every temporal constraint became a precedence", f.loc(q[0]) if q else (f.loc(tests[0].ast) if tests else f.loc()), construct=norm(q[0]) if q else (norm(tests[0].ast) if tests else ""), function=f.qualname)
     for n in cfg.nodes:
         if n.kind != "return" or not isinstance(n.ast.value, ast.Call):
             continue
         cls_name = call_name(n.ast.value)
-        gs = [(norm(t.ast), o) for t, o in guards_dominating(cfg, n)]
-        is_qual = any(g == "not qualitative" and not o or g == "qualitative" and o for g, o in gs)
+        facts = path_facts(cfg, n)
+        is_qual = (QUAL, True) in facts or any((qn, True) in facts for qn in qnames)
         if cls_name in ("TotalOrder", "PartialOrder"):
             rep.check(is_qual, rule2, f"{cls_name} is returned only for a qualitative network", f.loc(n.ast), construct=norm(n.ast), detail="" if is_qual else "an order is reported although some temporal constraint is not a precedence", function=f.qualname)
         elif cls_name == "TemporalConstraints":
